@@ -70,6 +70,15 @@ def misc_cases():
     }).map(lambda c: {"gen": "misc", "case": c})
 
 
+def enumerate_cases(tier):
+    for code in (1, 2, 3):
+        for fmt in "BIQq":
+            for c in (0, 3, 77):
+                yield {"gen": "misc", "case": {
+                    "form": "dict-then-guard", "fmt": fmt, "c": c,
+                    "code": code, "helper": "ktime", "live": [5]}}
+
+
 def run_misc(case):
     from ebpfcat.arraymap import ArrayMap
     from ebpfcat.ebpf import ktime, prandom
@@ -110,6 +119,24 @@ def run_misc(case):
                 e.table.update()
             for no in live:
                 e.vb = e.vb + e.r[no]
+        elif f == "dict-then-guard":
+            # a map operation is the first thing the program does (no
+            # register is in use yet), the packet is looked at afterwards
+            if case["code"] == 1:
+                e.table.key.k = 5
+                e.table.value.v = case["c"]
+                e.table.value.w = 0
+                e.table.update()
+            elif case["code"] == 2:
+                e.table.key.k = 5
+                with e.table.lookup() as (value, Else):
+                    value.v = case["c"]
+            else:
+                e.hv = case["c"]
+            with e.packetSize > 20 + case["c"] % 8 as p:
+                e.vb = p.pB[14 + case["c"] % 6]
+            e.va = e.vb + 1
+            e.exit(XDPExitCode.PASS)
         elif f == "helper-in-lookup":
             # a helper call while the looked-up value pointer is live
             e.table.key.k = e.va
@@ -138,9 +165,12 @@ def run_misc(case):
     ns = {"license": "GPL", "minimumPacketSize": 20,
           "amap": amap, "va": amap.globalVar(case["fmt"]),
           "vb": amap.globalVar("Q"), "program": program}
-    if case["form"] in ("helper-in-lookup", "regs-across-update"):
+    if case["form"] == "dict-then-guard":
+        ns["minimumPacketSize"] = None
+    if case["form"] in ("helper-in-lookup", "regs-across-update",
+                        "dict-then-guard"):
         ns["table"] = Dict(Key, Value, size=4)
-    if case["form"] == "regs-across-update":
+    if case["form"] in ("regs-across-update", "dict-then-guard"):
         from ebpfcat.hashmap import HashMap
         ns["hmap"] = HashMap()
         ns["hv"] = ns["hmap"].globalVar("Q")
@@ -153,7 +183,8 @@ def run_misc(case):
         except Exception:
             return {"key": None}    # the DSL refused to build it
     return {"key": repr((case["form"], case["fmt"], case["helper"],
-                         case["code"] if case["form"] == "regs-across-update"
+                         case["code"] if case["form"] in (
+                             "regs-across-update", "dict-then-guard")
                          else None,
                          tuple(case.get("live") or ())
                          if case["form"] == "regs-across-update" else None))}
